@@ -66,6 +66,12 @@ def drive_ops(item):
     os.makedirs(sub)
     rng = random.Random(variant)
     steps = []
+    # nested projects: the directory above holds another project's configuration, which is none of this one's
+    outer = os.path.join(os.path.dirname(sb.proj), ".gwfconf.json")
+    outer_text = json.dumps({"a": "outer", "a.b": 7, "verbose": "debug", "backend": "sge"})
+    if variant % 2:
+        with open(outer, "w") as fh:
+            fh.write(outer_text)
     for op in scn["ops"]:
         cwd = sub if rng.random() < 0.4 else sb.proj
         if op["op"] == "set":
@@ -79,9 +85,12 @@ def drive_ops(item):
         st = dict(op, flags=" ".join(flags))
         st.update(exit=r.exit_code if r.exc is None else -1, out=(r.stdout or "").rstrip("\n") if op["op"] == "get" else "",
                   file=typed_file(sb), at_root=os.path.exists(sb.path(".gwfconf.json")),
-                  stray_file=os.path.exists(os.path.join(sub, ".gwfconf.json")), cwd="nested" if cwd == sub else "root",
+                  stray_file=os.path.exists(os.path.join(sub, ".gwfconf.json")) or (variant % 2 == 1 and open(outer).read() != outer_text),
+                  cwd="nested" if cwd == sub else "root",
                   err=(r.stderr or "")[-200:] + (repr(r.exc) if r.exc else ""))
         steps.append(st)
+    if os.path.exists(outer):
+        os.remove(outer)
     return {"id": rid, "scn": dict(scn, variant=variant), "steps": steps, "obs": {}}
 
 
